@@ -188,6 +188,12 @@ theorem port_timeouts_finite :
     Gen.SerialIntf.readTimeout.isSome = true ∧ Gen.SerialIntf.writeTimeout.isSome = true ∧
     0 < Gen.SerialIntf.dropAllPolls := by decide
 
+/-- the port is opened with a positive write timeout: a write blocks until the whole burst is handed to
+    the OS (with `write_timeout = 0` pyserial performs one non-blocking `os.write` and silently returns a
+    partial count, which `_write` ignores — bursts larger than the tty buffer would be truncated) -/
+theorem write_blocks_until_written :
+    Gen.SerialIntf.writeTimeout ≠ some 0 ∧ Gen.SerialIntf.readTimeout ≠ some 0 := by decide
+
 /-! ### non-vacuity -/
 
 /-- a history with padding 4: a write, a send split by the OS into 2 + 1 bytes, reads (one idle, one
